@@ -92,6 +92,11 @@ class State:
         self.next_addr = 0x20000000
         self.steps = 0
         self.extra = {}       # model-private state (copied shallowly on fork)
+        self.threads = None   # list of Thread records once a second thread exists (self.frames is the running thread's stack)
+        self.cur = 0
+        self.preempt_left = 0
+        self.slice = 0
+        self.sched_trace = []
 
     def clone(self):
         s = State()
@@ -110,6 +115,19 @@ class State:
         s.next_addr = self.next_addr
         s.steps = self.steps
         s.extra = dict((k, (list(v) if isinstance(v, list) else dict(v) if isinstance(v, dict) else v)) for k, v in self.extra.items())
+        s.cur = self.cur
+        s.preempt_left = self.preempt_left
+        s.slice = self.slice
+        s.sched_trace = list(self.sched_trace)
+        if self.threads is not None:
+            s.threads = []
+            for i, t in enumerate(self.threads):
+                t2 = dict(t)
+                if i == self.cur:
+                    t2["frames"] = s.frames
+                else:
+                    t2["frames"] = [f.clone() for f in t["frames"]]
+                s.threads.append(t2)
         # objects owned by the old id are shared from now on
         self.id = new_sid()
         return s
@@ -180,9 +198,10 @@ STD_BASES = {
 
 
 class Engine:
-    def __init__(self, mod, opaque=(), max_steps=3000000, max_paths=20000, wall=900, replay=None, trace=False, solver_timeout_ms=20000):
+    def __init__(self, mod, opaque=(), tolerate=(), max_steps=3000000, max_paths=20000, wall=900, replay=None, trace=False, solver_timeout_ms=20000):
         self.m = mod
         self.opaque = [re.compile(r) for r in opaque]
+        self.tolerate = [re.compile(r) for r in tolerate]
         self.max_steps, self.max_paths, self.wall = max_steps, max_paths, wall
         self.replay = replay
         self.replay_pos = 0
@@ -211,6 +230,9 @@ class Engine:
         self.t0 = time.time()
         self.total_steps = 0
         self.cur_ins = None
+        self.explore = False
+        self.time_slice = 400
+        self.cur_tid = 1
         self.models = MODELS
         self.model_res = MODEL_RES
 
@@ -365,6 +387,13 @@ class Engine:
         a = self.gaddr.get(name)
         if a is not None:
             return a
+        g0 = self.m.globals.get(name)
+        if g0 is not None and g0.tls:
+            key = "%s$tls%d" % (name, self.cur_tid)
+            a = self.gaddr.get(key)
+            if a is None:
+                a = self._alloc_global(name, g0, key)
+            return a
         if name in self.m.aliases:
             tgt = self.m.aliases[name]
             tv = tgt[1] if isinstance(tgt, tuple) else tgt
@@ -376,6 +405,9 @@ class Engine:
         g = self.m.globals.get(name)
         if g is None:
             raise Inconclusive("unknown global @%s" % name)
+        return self._alloc_global(name, g, name)
+
+    def _alloc_global(self, name, g, key):
         try:
             size = self.m.sizeof(g.ty)
         except llir.IRError:
@@ -385,8 +417,8 @@ class Engine:
         al = max(g.align or 16, 16)
         base = (self.gnext + al - 1) // al * al
         self.gnext = base + size + 64
-        self.gaddr[name] = base
-        o = Obj(base, size, "global", "@" + name, 0, ro=bool(g.const))
+        self.gaddr[key] = base
+        o = Obj(base, size, "global", "@" + key, 0, ro=bool(g.const))
         self.gobj[base] = o
         self.gbases.append(base)
         if g.init is not None:
@@ -582,7 +614,14 @@ class Engine:
         if o is None or addr + n > o.base + o.size:
             self.fail_path(st, "MEM:%s of %d bytes outside every live object%s" % (what, n, (" (%d bytes past the start of %s, size %d)" % (addr - o.base, o.name, o.size)) if o else ""), "MEM")
         if not o.alive:
-            self.fail_path(st, "MEM:%s of %s after it was %s" % (what, o.name, "freed" if o.kind == "heap" else "out of scope"), "MEM")
+            fn = st.frames[-1].fn.name if st.frames else "?"
+            label = "MEM:use after %s in %s: %s of %s" % ("free" if o.kind == "heap" else "scope", fn, what, o.name)
+            if any(rx.search(label) for rx in self.tolerate):
+                # a listed known finding: recorded once, execution continues on the stale bytes so that the rest of the path is still checked
+                self.obligations += 1
+                self.violation(st, label, "MEM")
+            else:
+                self.fail_path(st, label, "MEM")
         return o, addr - o.base
 
     def load_bytes(self, st, addr, n):
@@ -960,7 +999,10 @@ class Engine:
                 o = self.wobj(st, o)
                 o.alive = False
         if not st.frames:
-            raise PathEnd("done")
+            if st.threads is None or st.cur == 0:
+                raise PathEnd("done")
+            self.thread_exit(st)
+            return
         caller = st.frames[-1]
         ins = fr.callins
         if ins is not None:
@@ -1177,6 +1219,8 @@ NOFINISH = object()
 
 
 def _step(self, st):
+    if st.threads is not None:
+        self.cur_tid = st.threads[st.cur]["tid"]
     fr = st.frames[-1]
     ins = fr.block.instrs[fr.ip]
     op = ins.op
@@ -1186,6 +1230,8 @@ def _step(self, st):
     if op == "call" or op == "invoke":
         self.do_call(st, fr, ins)
         return
+    if st.threads is not None and (op in ("atomicrmw", "cmpxchg", "fence") or (op in ("load", "store") and (A.get("atomic") or A.get("volatile")))):
+        self.sync_point(st)
     if op in ("add", "sub", "mul", "udiv", "sdiv", "urem", "srem", "shl", "lshr", "ashr", "and", "or", "xor"):
         a, b = V(0), V(1)
         t = self.m.resolve(ins.ty)
@@ -1464,6 +1510,16 @@ def _intrinsic(self, st, ins, name, args):
         return self.typeid(v.v)
     if n1 in ("stacksave",):
         return 0
+    if n1 == "x86" and base[2] == "rdtsc":
+        st.extra["tsc"] = st.extra.get("tsc", 0) + 100000
+        self.assumptions.add("rdtsc: a counter advancing by 100000 per read (spin back-off loops terminate)")
+        return st.extra["tsc"]
+    if n1 == "x86" and base[2] in ("sse2", "mmx") and base[-1] in ("pause", "lfence", "mfence", "sfence"):
+        self.sync_point(st, voluntary=(base[-1] == "pause"))
+        return None
+    if n1 == "readcyclecounter":
+        st.extra["tsc"] = st.extra.get("tsc", 0) + 100000
+        return st.extra["tsc"]
     if n1 in ("stackrestore", "trap", "debugtrap", "va_start", "va_end", "va_copy"):
         if n1 == "trap":
             self.fail_path(st, "TRAP:llvm.trap executed", "TRAP")
@@ -1501,11 +1557,135 @@ Engine.step = _step
 Engine.intrinsic = _intrinsic
 
 
+# ---------------------------------------------------------------------------- threads (cooperative, optional schedule exploration)
+def _threads(self, st):
+    if st.threads is None:
+        st.threads = [dict(tid=1, frames=st.frames, status="run", wait=None, phase=0, skip=False)]
+        st.cur = 0
+    return st.threads
+
+
+def _spawn(self, st, fn, args, what):
+    ts = self.threads(st)
+    fr = Frame(fn, None)
+    for (p, a) in zip(fn.params, args):
+        fr.vals[p[1]] = a
+    self.funcs_encoded.add(fn.name)
+    tid = len(ts) + 1
+    ts.append(dict(tid=tid, frames=[fr], status="run", wait=None, phase=0, skip=False, what=what))
+    self.assumptions.add("threads: sequentially consistent interleaving of whole instructions; context switches at blocking calls, yields, "
+                         "synchronisation calls and atomic operations (bounded preemptions as stated per entry), time-sliced at atomic operations for liveness")
+    return tid
+
+
+def _switch_to(self, st, j):
+    ts = st.threads
+    ts[st.cur]["frames"] = st.frames
+    st.cur = j
+    st.frames = ts[j]["frames"]
+    st.slice = 0
+    st.sched_trace.append(ts[j]["tid"])
+    if os.environ.get("VP_PATH_DEBUG") == "2":
+        sys.stderr.write("switch -> thread %d at step %d in %s ; statuses %s\n" % (ts[j]["tid"], self.total_steps, st.frames[-1].fn.name[:60] if st.frames else "-", [(t["tid"], t["status"], t["wait"]) for t in ts]))
+
+
+def _runnable(self, st):
+    return [i for i, t in enumerate(st.threads) if t["status"] == "run"]
+
+
+def _thread_exit(self, st):
+    ts = st.threads
+    me = ts[st.cur]
+    me["status"] = "done"
+    for t in ts:
+        if t["status"] == "blocked" and t["wait"] == ("join", me["tid"]):
+            t["status"] = "run"
+            t["wait"] = None
+    self.pick_next(st, "thread exit")
+
+
+def _pick_next(self, st, why):
+    """the running thread cannot continue (blocked / finished / yielded): choose who runs next"""
+    run = self.runnable(st)
+    if not run:
+        self.fail_path_noframe(st, "SCHED:deadlock - every thread is blocked (%s)" % ", ".join(
+            "thread %d %s" % (t["tid"], t["wait"]) for t in st.threads if t["status"] == "blocked"), "SCHED")
+    others = [i for i in run if i != st.cur]
+    if not others:
+        return
+    # round-robin order starting after the current thread
+    order = sorted(others, key=lambda i: (i - st.cur) % len(st.threads))
+    if self.explore and len(order) > 1:
+        raise Fork([(z3.BoolVal(True), None, st.model, ("switch", j)) for j in order])
+    self.switch_to(st, order[0])
+
+
+def _block(self, st, wait):
+    """the running thread blocks on `wait`; its current call is re-executed when it is woken"""
+    me = st.threads[st.cur]
+    me["status"] = "blocked"
+    me["wait"] = wait
+    self.pick_next(st, "blocked")
+
+
+def _wake(self, st, pred, one=False):
+    n = 0
+    for t in st.threads or []:
+        if t["status"] == "blocked" and pred(t["wait"]):
+            t["status"] = "run"
+            t["wait"] = None
+            n += 1
+            if one:
+                break
+    return n
+
+
+def _sync_point(self, st, voluntary=False):
+    """a point where another thread may be scheduled; returns normally if the current thread keeps running"""
+    if st.threads is None:
+        return
+    me = st.threads[st.cur]
+    if me["skip"]:
+        me["skip"] = False
+        return
+    others = [i for i in self.runnable(st) if i != st.cur]
+    if not others:
+        return
+    st.slice += 1
+    order = sorted(others, key=lambda i: (i - st.cur) % len(st.threads))
+    if voluntary or st.slice > self.time_slice:
+        me["skip"] = True
+        if self.explore and len(order) > 1:
+            raise Fork([(z3.BoolVal(True), None, st.model, ("switch", j)) for j in order])
+        self.switch_to(st, order[0])
+        raise Resched()
+    if self.explore and st.preempt_left > 0:
+        me["skip"] = True
+        alts = [(z3.BoolVal(True), None, st.model, ("stay",))] + [(z3.BoolVal(True), None, st.model, ("preempt", j)) for j in order]
+        raise Fork(alts)
+
+
+class Resched(Exception):
+    """control moved to another thread: the interrupted instruction is executed when its thread runs again"""
+
+
+Engine.threads = _threads
+Engine.spawn = _spawn
+Engine.switch_to = _switch_to
+Engine.runnable = _runnable
+Engine.thread_exit = _thread_exit
+Engine.pick_next = _pick_next
+Engine.block = _block
+Engine.wake = _wake
+Engine.sync_point = _sync_point
+
+
 def _run_entry(self, name):
     f = self.m.funcs.get(name)
     if f is None or f.is_decl:
         raise Inconclusive("no entry %s" % name)
     st0 = State()
+    self.cur_tid = 1
     st0.frames.append(Frame(f))
     self.funcs_encoded.add(name)
     work = [st0]
@@ -1521,6 +1701,8 @@ def _run_entry(self, name):
                     raise Inconclusive("wall-clock limit %ds" % self.wall)
                 try:
                     self.step(st)
+                except Resched:
+                    continue
                 except Fork as fk:
                     if self.paths + len(work) + len(fk.alts) > self.max_paths:
                         raise Inconclusive("path limit %d" % self.max_paths)
@@ -1531,9 +1713,17 @@ def _run_entry(self, name):
                         s2.pc.append(c)
                         s2.model = model
                         if len(alt) > 3:
-                            # the forking call completes with this value in the successor (no re-execution)
-                            fr2 = s2.frames[-1]
-                            self.finish_call(s2, fr2.block.instrs[fr2.ip], alt[3])
+                            post = alt[3]
+                            if isinstance(post, tuple) and post[0] in ("switch", "preempt"):
+                                if post[0] == "preempt":
+                                    s2.preempt_left -= 1
+                                self.switch_to(s2, post[1])
+                            elif isinstance(post, tuple) and post[0] == "stay":
+                                pass
+                            else:
+                                # the forking call completes with this value in the successor (no re-execution)
+                                fr2 = s2.frames[-1]
+                                self.finish_call(s2, fr2.block.instrs[fr2.ip], post)
                         if fact is not None:
                             if fact[0] == "known":
                                 s2.known[fact[1]] = (fact[2], fact[3])
@@ -1582,9 +1772,9 @@ def load_module(ll, support=()):
     return mod
 
 
-def run(ll, entry, opaque=(), wall=900, max_steps=3000000, max_paths=20000, replay=None, support=()):
+def run(ll, entry, opaque=(), wall=900, max_steps=3000000, max_paths=20000, replay=None, support=(), tolerate=()):
     mod = load_module(ll, support)
-    eng = Engine(mod, opaque=opaque, wall=wall, max_steps=max_steps, max_paths=max_paths, replay=replay)
+    eng = Engine(mod, opaque=opaque, tolerate=tolerate, wall=wall, max_steps=max_steps, max_paths=max_paths, replay=replay)
     status = "held"
     note = ""
     try:
@@ -1609,16 +1799,18 @@ def main():
     ap.add_argument("--replay", default=None, help="file of concrete inputs: run concretely and print the event trace")
     ap.add_argument("--json", default=None)
     ap.add_argument("--support", default="", help="comma-separated extra .ll modules")
+    ap.add_argument("--tolerate", default="", help="file with one regex per line: use-after-free labels that are recorded but do not end the path")
     a = ap.parse_args()
     opaque = [l.strip() for l in open(a.opaque) if l.strip()] if a.opaque else []
     t0 = time.time()
     sup = [x for x in a.support.split(",") if x]
+    tol = [l.strip() for l in open(a.tolerate) if l.strip()] if a.tolerate else []
     if a.replay:
         # concrete differential mode: one run per replay file (comma separated), module parsed once
         mod = load_module(a.ll, sup)
         for rf in a.replay.split(","):
             replay = [int(x) for x in open(rf).read().split()]
-            eng = Engine(mod, opaque=opaque, wall=a.wall, max_steps=a.max_steps, max_paths=a.max_paths, replay=replay)
+            eng = Engine(mod, opaque=opaque, tolerate=tol, wall=a.wall, max_steps=a.max_steps, max_paths=a.max_paths, replay=replay)
             print("== %s" % rf)
             try:
                 eng.run_entry(a.entry)
@@ -1627,7 +1819,7 @@ def main():
             except Inconclusive as e:
                 print("INCONCLUSIVE", e)
         return 0
-    eng, status, note = run(a.ll, a.entry, opaque, a.wall, a.max_steps, a.max_paths, None, sup)
+    eng, status, note = run(a.ll, a.entry, opaque, a.wall, a.max_steps, a.max_paths, None, sup, tol)
     out = dict(entry=a.entry, status=status, note=note, paths=eng.paths, path_ends=eng.path_ends, steps=eng.total_steps, queries=eng.queries,
                obligations=eng.obligations, solver_time=round(eng.solver_time, 3), wall=round(time.time() - t0, 3), violations=eng.violations,
                reach=sorted(eng.reach), functions=sorted(eng.funcs_encoded), assumptions=sorted(eng.assumptions))
@@ -1707,6 +1899,12 @@ def m_pick(eng, st, ins, name, args):
         st.pc.append(var == z3.BitVecVal(0, 32))
         return 0
     raise Fork([(var == z3.BitVecVal(i, 32), None, None, i) for i in range(n)])
+
+
+@model("vp_fix")
+def m_fix(eng, st, ins, name, args):
+    """vp_fix(x): x made concrete - one path per value of x that the solver finds feasible under the path condition"""
+    return eng.concretize(st, args[0], "vp_fix", limit=4096)
 
 
 @model("vp_assume")
@@ -2225,6 +2423,280 @@ def m_stream_ctor(eng, st, ins, name, args):
         if off + 8 <= n:
             eng.store_bytes(st, p + off, ct)
     return None
+
+
+# ---- threads and synchronisation
+def _me(st):
+    return st.threads[st.cur] if st.threads is not None else None
+
+
+@model("vp_sched")
+def m_sched(eng, st, ins, name, args):
+    """vp_sched(p): from here on explore schedules with at most p preemptions (switches at blocking points are free)"""
+    st.preempt_left = _conc(eng, st, args[0], "vp_sched")
+    eng.explore = True
+    return None
+
+
+@model("pthread_create")
+def m_pthread_create(eng, st, ins, name, args):
+    fnaddr = _conc(eng, st, args[2], "thread function")
+    fname = eng.fbyaddr.get(fnaddr)
+    if fname is None or fname not in eng.m.funcs or eng.m.funcs[fname].is_decl:
+        raise Inconclusive("pthread_create with unknown start routine")
+    tid = eng.spawn(st, eng.m.funcs[fname], [args[3]], "pthread " + fname)
+    eng.store(st, args[0], tid, llir.I64)
+    st.extra["threads_created"] = st.extra.get("threads_created", 0) + 1
+    eng.sync_point(st)
+    return 0
+
+
+def _thread_by_tid(st, tid):
+    for t in st.threads or []:
+        if t["tid"] == tid:
+            return t
+    return None
+
+
+@model("pthread_join")
+def m_pthread_join(eng, st, ins, name, args):
+    tid = _conc(eng, st, args[0], "pthread_join")
+    t = _thread_by_tid(st, tid)
+    if t is None:
+        return 3
+    if t["status"] != "done":
+        eng.block(st, ("join", tid))
+        return NOFINISH
+    return 0
+
+
+@model("pthread_cancel")
+def m_pthread_cancel(eng, st, ins, name, args):
+    tid = _conc(eng, st, args[0], "pthread_cancel")
+    t = _thread_by_tid(st, tid)
+    if t is not None and t["status"] != "done":
+        # cancellation is acted on at the target's next cancellation point; a blocked or idle worker simply ends
+        t["status"] = "done"
+        t["cancelled"] = True
+        eng.wake(st, lambda w: w == ("join", tid))
+    return 0
+
+
+@model("pthread_detach", "pthread_setcancelstate", "pthread_setcanceltype", "pthread_attr_init", "pthread_attr_destroy", "pthread_attr_setstacksize", "pthread_setname_np", "pthread_setaffinity_np")
+def m_pthread_misc(eng, st, ins, name, args):
+    return 0
+
+
+@model("pthread_self")
+def m_pthread_self(eng, st, ins, name, args):
+    return eng.cur_tid
+
+
+@model("_ZNSt6thread20hardware_concurrencyEv", "get_nprocs")
+def m_hw(eng, st, ins, name, args):
+    eng.assumptions.add("hardware_concurrency() = 3")
+    return 3
+
+
+@model("sysconf")
+def m_sysconf(eng, st, ins, name, args):
+    eng.assumptions.add("sysconf(_SC_NPROCESSORS_ONLN) = 3")
+    return 3
+
+
+@model("_ZNSt6thread15_M_start_threadESt10unique_ptrINS_6_StateESt14default_deleteIS1_EEPFvvE")
+def m_thread_start(eng, st, ins, name, args):
+    th, up = args[0], args[1]
+    state = eng.load(st, up, llir.I64)
+    state = _conc(eng, st, state, "thread state")
+    vt = _conc(eng, st, eng.load(st, state, llir.I64), "vptr")
+    fnaddr = _conc(eng, st, eng.load(st, vt + 16, llir.I64), "_M_run")
+    fname = eng.fbyaddr.get(fnaddr)
+    if fname is None:
+        raise Inconclusive("std::thread state without _M_run")
+    tid = eng.spawn(st, eng.m.funcs[fname], [state], "std::thread")
+    eng.store(st, up, 0, llir.I64)
+    eng.store(st, th, tid, llir.I64)
+    st.extra["threads_created"] = st.extra.get("threads_created", 0) + 1
+    eng.sync_point(st)
+    return None
+
+
+@model("_ZNSt6thread4joinEv")
+def m_thread_join(eng, st, ins, name, args):
+    tid = _conc(eng, st, eng.load(st, args[0], llir.I64), "thread id")
+    t = _thread_by_tid(st, tid)
+    if t is None:
+        return _throw_std(eng, st, "_ZTISt12system_error")
+    if t["tid"] == eng.cur_tid:
+        return _throw_std(eng, st, "_ZTISt12system_error")
+    if t["status"] != "done":
+        eng.block(st, ("join", tid))
+        return NOFINISH
+    eng.store(st, args[0], 0, llir.I64)
+    return None
+
+
+@model("_ZNSt6thread6detachEv")
+def m_thread_detach(eng, st, ins, name, args):
+    eng.store(st, args[0], 0, llir.I64)
+    return None
+
+
+@model("_ZNSt6thread6_StateD2Ev", "_ZNSt6thread6_StateD1Ev", "_ZNSt6thread6_StateD0Ev")
+def m_thread_state_dtor(eng, st, ins, name, args):
+    return None
+
+
+@model("vp_threads_created")
+def m_threads_created(eng, st, ins, name, args):
+    return st.extra.get("threads_created", 0)
+
+
+@model("vp_workers_mode")
+def m_workers_mode(eng, st, ins, name, args):
+    return None
+
+
+@model("sched_yield", "_ZNSt11this_thread5yieldEv", "usleep", "nanosleep", "_ZNSt11this_thread11__sleep_forENSt6chrono8durationIlSt5ratioILl1ELl1EEEENS1_IlS2_ILl1ELl1000000000EEEE")
+def m_yield(eng, st, ins, name, args):
+    if st.threads is not None:
+        eng.sync_point(st, voluntary=True)
+    return 0
+
+
+@model("sem_init")
+def m_sem_init(eng, st, ins, name, args):
+    v = args[2]
+    eng.store(st, args[0], v, llir.I32)
+    return 0
+
+
+@model("sem_destroy")
+def m_sem_destroy(eng, st, ins, name, args):
+    return 0
+
+
+@model("sem_post")
+def m_sem_post(eng, st, ins, name, args):
+    a = _conc(eng, st, args[0], "sem")
+    eng.sync_point(st)
+    c = _conc(eng, st, eng.load(st, a, llir.I32), "semaphore count")
+    eng.store(st, a, (c + 1) & mask(32), llir.I32)
+    eng.wake(st, lambda w: w == ("sem", a), one=True)
+    return 0
+
+
+@model("sem_wait")
+def m_sem_wait(eng, st, ins, name, args):
+    a = _conc(eng, st, args[0], "sem")
+    c = _conc(eng, st, eng.load(st, a, llir.I32), "semaphore count")
+    if c > 0:
+        eng.store(st, a, c - 1, llir.I32)
+        return 0
+    if st.threads is None:
+        eng.fail_path(st, "SCHED:deadlock - sem_wait on an empty semaphore with no other thread", "SCHED")
+    eng.block(st, ("sem", a))
+    return NOFINISH
+
+
+def _mutexes(st):
+    return st.extra.setdefault("mutex", {})
+
+
+@model("pthread_mutex_lock")
+def m_mutex_lock(eng, st, ins, name, args):
+    a = _conc(eng, st, args[0], "mutex")
+    mx = _mutexes(st)
+    owner = mx.get(a)
+    if owner is None:
+        eng.sync_point(st)
+        mx = _mutexes(st)
+        mx[a] = eng.cur_tid
+        return 0
+    if owner == eng.cur_tid:
+        eng.fail_path(st, "SCHED:deadlock - non-recursive mutex locked twice by the same thread", "SCHED")
+    if st.threads is None:
+        eng.fail_path(st, "SCHED:deadlock - mutex held and no other thread", "SCHED")
+    eng.block(st, ("mutex", a))
+    return NOFINISH
+
+
+@model("pthread_mutex_trylock")
+def m_mutex_trylock(eng, st, ins, name, args):
+    a = _conc(eng, st, args[0], "mutex")
+    mx = _mutexes(st)
+    if mx.get(a) is None:
+        mx[a] = eng.cur_tid
+        return 0
+    return 16
+
+
+@model("pthread_mutex_unlock")
+def m_mutex_unlock(eng, st, ins, name, args):
+    a = _conc(eng, st, args[0], "mutex")
+    mx = _mutexes(st)
+    if mx.get(a) != eng.cur_tid:
+        eng.fail_path(st, "UB:mutex unlocked by a thread that does not hold it", "UB")
+    del mx[a]
+    eng.wake(st, lambda w: w == ("mutex", a))
+    return 0
+
+
+@model("pthread_mutex_init", "pthread_mutex_destroy", "pthread_cond_init", "pthread_cond_destroy", "_ZNSt18condition_variableC1Ev", "_ZNSt18condition_variableC2Ev", "_ZNSt18condition_variableD1Ev", "_ZNSt18condition_variableD2Ev")
+def m_sync_init(eng, st, ins, name, args):
+    return 0
+
+
+def _cv_wait(eng, st, cv, mtx):
+    me = _me(st)
+    mx = _mutexes(st)
+    if me is None:
+        eng.fail_path(st, "SCHED:deadlock - condition wait with no other thread", "SCHED")
+    if me["phase"] == 0:
+        if mx.get(mtx) != eng.cur_tid:
+            eng.fail_path(st, "UB:condition_variable::wait without holding the mutex", "UB")
+        del mx[mtx]
+        eng.wake(st, lambda w: w == ("mutex", mtx))
+        me["phase"] = 1
+        eng.block(st, ("cv", cv))
+        return NOFINISH
+    # woken: re-acquire the mutex
+    if mx.get(mtx) is None:
+        mx[mtx] = eng.cur_tid
+        me["phase"] = 0
+        return 0
+    eng.block(st, ("mutex", mtx))
+    return NOFINISH
+
+
+@model("_ZNSt18condition_variable4waitERSt11unique_lockISt5mutexE")
+def m_cv_wait(eng, st, ins, name, args):
+    cv = _conc(eng, st, args[0], "cv")
+    mtx = _conc(eng, st, eng.load(st, args[1], llir.I64), "mutex")
+    r = _cv_wait(eng, st, cv, mtx)
+    return None if r == 0 else r
+
+
+@model("pthread_cond_wait")
+def m_pcond_wait(eng, st, ins, name, args):
+    return _cv_wait(eng, st, _conc(eng, st, args[0], "cv"), _conc(eng, st, args[1], "mutex"))
+
+
+@model("_ZNSt18condition_variable10notify_oneEv", "pthread_cond_signal")
+def m_cv_notify_one(eng, st, ins, name, args):
+    cv = _conc(eng, st, args[0], "cv")
+    eng.sync_point(st)
+    eng.wake(st, lambda w: w == ("cv", cv), one=True)
+    return 0 if name.startswith("pthread") else None
+
+
+@model("_ZNSt18condition_variable10notify_allEv", "pthread_cond_broadcast")
+def m_cv_notify_all(eng, st, ins, name, args):
+    cv = _conc(eng, st, args[0], "cv")
+    eng.sync_point(st)
+    eng.wake(st, lambda w: w == ("cv", cv))
+    return 0 if name.startswith("pthread") else None
 
 
 # ---- stdio: output is discarded
